@@ -2,5 +2,6 @@ CONSTANTS
   Types = {}
   MaxSet = 4
   MaxAbsent = 2
+  TwoStep = FALSE
 SPECIFICATION Spec
 CHECK_DEADLOCK FALSE
